@@ -16,6 +16,12 @@ var textUnmarshaler = reflect.TypeOf((*encoding.TextUnmarshaler)(nil)).Elem()
 // Pointerify takes a type and returns another type with all its members
 // set to pointers of their respective types
 func Pointerify(original reflect.Type, tmpl reflect.Value) reflect.Type {
+	return pointerify(original, tmpl, map[uintptr]struct{}{})
+}
+
+// seen holds the template pointers (found in interface values) whose pointees
+// are currently being walked, so reference cycles in the template terminate.
+func pointerify(original reflect.Type, tmpl reflect.Value, seen map[uintptr]struct{}) reflect.Type {
 	newFields := make([]reflect.StructField, 0, original.NumField())
 
 	for i := 0; i < original.NumField(); i++ {
@@ -29,7 +35,7 @@ func Pointerify(original reflect.Type, tmpl reflect.Value) reflect.Type {
 			continue
 		}
 
-		sf := pointerifyField(originalField, tmplFieldVal)
+		sf := pointerifyField(originalField, tmplFieldVal, seen)
 		if sf != nil {
 			newFields = append(newFields, *sf)
 		}
@@ -58,7 +64,7 @@ func OmitField(sf reflect.StructField) bool {
 
 }
 
-func pointerifyField(originalField reflect.StructField, tmplFieldVal reflect.Value) *reflect.StructField {
+func pointerifyField(originalField reflect.StructField, tmplFieldVal reflect.Value, seen map[uintptr]struct{}) *reflect.StructField {
 	ft := originalField.Type
 	sf := reflect.StructField{
 		Name:      originalField.Name,
@@ -98,9 +104,18 @@ func pointerifyField(originalField reflect.StructField, tmplFieldVal reflect.Val
 			// interface that Sources know about.
 			return &originalField
 		case reflect.Ptr, reflect.Struct:
+			if impl.Kind() == reflect.Ptr && !impl.IsNil() {
+				if _, cyclic := seen[impl.Pointer()]; cyclic {
+					// the template points back into a value being
+					// walked: keep the interface type as-is.
+					return &originalField
+				}
+				seen[impl.Pointer()] = struct{}{}
+				defer delete(seen, impl.Pointer())
+			}
 			newSF := originalField
 			newSF.Type = impl.Type()
-			return pointerifyField(newSF, impl)
+			return pointerifyField(newSF, impl, seen)
 		}
 		return &originalField
 	case reflect.Ptr:
@@ -131,7 +146,7 @@ func pointerifyField(originalField reflect.StructField, tmplFieldVal reflect.Val
 		}
 		// It's a struct without an UnmarshalText method, we
 		// need to recursively pointerify the component fields.
-		pointeredStruct := Pointerify(ft, tmplFieldVal)
+		pointeredStruct := pointerify(ft, tmplFieldVal, seen)
 		return &reflect.StructField{
 			Name:      originalField.Name,
 			Type:      reflect.PtrTo(pointeredStruct),
